@@ -106,7 +106,8 @@ CHECKS = {
         text=("Sequences: with 1, 2 and 3 registered counters and 3 scopes, every sequence over {Incr(c,s,+-1), Value, Merge(s,t), Reset(s,t), Reset(s,nil), gob round trip, worker->driver transport} to depth 3 (quick, all) / "
               "5-7 (thorough, de-duplicated on presence/sharing/value of every slot) is replayed on fresh real scopes and compared with a map model after every step. Concurrency (layer S, flavour schedm: package metrics' atomics are "
               "scheduling points): 2-3 threads Incr/Merge/Value one fresh scope (CAS creation of the instance list and instances), all schedules up to preemption bound 3 (+ delay bound 6 thorough) - final totals must be the sums; the same bodies also run free under the Go race detector (a non-atomic access has no scheduling point; auxiliary, sampled). "
-              "End-to-end: programs incrementing counters per row, 1-3 shards, with and without shuffles, both executors: Result.Scope() totals equal rows processed, once per task."),
+              "Real sessions under the same scheduler (c19-sched -layer C20: local executor and a one-machine cluster): the counters of a result are complete the moment Run returns, all schedules with <=2 / <=1 deviations. "
+              "End-to-end: programs incrementing counters per row, 1-3 shards, with and without shuffles, both executors: Result.Scope() totals equal rows processed, once per task; reuse / discard-then-recompute histories (plain and map-side-combiner source tasks, recomputation on the same worker) report each task once."),
         note=TRUSTED + " vsched assumptions as for C03.",
         design_ref="§5 C20",
     ),
@@ -159,8 +160,9 @@ CHECKS = {
         technique="explicit enumeration of all run/scan/reuse/discard/kill histories up to a depth on both executors (fresh session per history) + controlled-scheduler exploration of concurrent scan/run/discard on the instrumented local session",
         text=("Layer H: every history up to depth 4 (quick) / 5 (thorough) over {Run(f), Scan(r), Run(Map over r), Run(Map-then-Reduce over r), Run(Reduce directly over r), Discard(r), Kill(machine k)} on 1-shard, 2-shard and post-shuffle source programs, "
               "on the local executor and on a verifsystem cluster, each replayed in a fresh session in child processes; states = task states of every live result + machine liveness. Oracle: every successful use observes the rows of the first "
-              "evaluation; a Func over a discarded/lost result succeeds by recomputing; a direct scan of a result whose outputs are gone delivers all rows or a correct prefix then an error; no hang. Layer S (sibling binary, flavour sched): "
-              "Scan||Scan, Scan||Discard, Run(g,r)||Discard, Run(g,r)||Run(h,r)||Discard, Run||Scan||Discard on the real instrumented local session under the vsched scheduler, all schedules with <=2 (quick, budgeted) / 3 deviations."),
+              "evaluation; a Func over a discarded/lost result succeeds by recomputing; a direct scan of a result whose outputs are gone delivers all rows or a correct prefix then an error; no hang. Space F (cluster): a Discard during which the n-th Worker.Discard RPC fails (persistent transport error with the Discard context expiring / machine dies before the request / after the handler), "
+              "for every task of the result, followed by every short word over Run/scan/Discard: nothing may hang. Layer S (sibling binary, flavour sched): "
+              "Scan||Scan, Scan||Discard, Run(g,r)||Discard, Run(g,r)||Run(h,r)||Discard, Run||Scan||Discard on the real instrumented local session and on a one-machine cluster under the vsched scheduler, all schedules with <=2 (quick, budgeted) / 3 deviations."),
         note=TRUSTED + " vsched assumptions as for C03. Inside one cluster history goroutine timing is not controlled (a signature is reported only if its simplest history reproduces 3/3 times in fresh processes); concurrent distributed histories run free.",
         design_ref="§5 C12",
     ),
